@@ -39,6 +39,16 @@ MUTANTS = [
     ("partial_block_accepted", "traph/storage/file.py", "        if file_length % self.block_size:\n            return True", "        if file_length % self.block_size > self.block_size // 2:\n            return True", ["C18"]),
     ("reopen_truncates", "traph/traph.py", "            flags = \"wb+\" if create else \"rb+\"", "            flags = \"wb+\" if (create or len(webentity_creation_rules) > 2) else \"rb+\"", ["C11"]),
     ("stubs_after_pointer", "traph/link_store/link_store.py", "            link_node.write()\n\n            tail_node = link_node", "            link_node.write()\n            if out and tail_node is not None and tail_node.block and link_node.block - tail_node.block == self.storage.block_size:\n                source_node.set_links(link_node.block + self.storage.block_size, out=out)\n                source_node.write()\n\n            tail_node = link_node", ["C18"]),
+    ("revert_F1", "traph/traph.py", "            node, page_report = self.__add_page(lru, crawled=crawled)\n            report += page_report\n\n        return report\n", "            node, page_report = self.__add_page(lru, crawled=crawled)\n            report += page_report\n\n            node.flag_as_crawled()\n            node.write()\n\n        return report\n", ["C01"]),
+    ("revert_F5", "traph/helpers.py", "    if lru.startswith(b\"s:http|\"):\n        return lru.replace(b\"s:http|\", b\"s:https|\", 1)\n    if lru.startswith(b\"s:https|\"):", "    if b\"s:http|\" in lru:\n        return lru.replace(b\"s:http|\", b\"s:https|\", 1)\n    if b\"s:https|\" in lru:", ["C06"]),
+    ("revert_F8", "traph/lru_trie/node.py", "                    if tail_data is None:\n                        break\n", "", ["C18"]),
+    ("revert_F9", "traph/storage/file.py", "        self.file.flush()\n\n        return MemMapStorage", "        return MemMapStorage", ["C15"]),
+    ("revert_F11", "traph/traph.py", "            # An in-memory index is always created from scratch\n            create = True\n", "", ["C15"]),
+    ("links_iter_out_ignored", "traph/traph.py", "            for target in self.link_store.deduped_link_nodes_iter(\n                page_node.links(out=out)\n            ):", "            for target in self.link_store.deduped_link_nodes_iter(\n                page_node.links(out=out) if page_node.is_crawled() or out else page_node.links(out=True)\n            ):", ["C03"]),
+    ("crawled_pages_filter_dropped", "traph/traph.py", "            if node.is_crawled():\n                pages.append({\"lru\": lru, \"crawled\": True})", "            if node.is_crawled() or node.has_outlinks():\n                pages.append({\"lru\": lru, \"crawled\": True})", ["C05"]),
+    ("slow_network_skips_auto_check", "traph/traph.py", "                # Allowing auto links?\n                if not include_auto and source_webentity == target_webentity:\n                    continue\n\n                # Adding to the graph\n                graph[source_webentity][target_webentity] += weight\n\n                if state.should_yield(5000):\n                    yield state\n\n        yield state.finalize(graph)\n\n    def get_webentities_links_iter", "                # Allowing auto links?\n                if not include_auto and source_webentity == target_webentity and weight < 3:\n                    continue\n\n                # Adding to the graph\n                graph[source_webentity][target_webentity] += weight\n\n                if state.should_yield(5000):\n                    yield state\n\n        yield state.finalize(graph)\n\n    def get_webentities_links_iter", ["C07"]),
+    ("parents_skip_first", "traph/lru_trie/lru_trie.py", "        parent = node.parent_node()\n\n        yield parent\n\n        while parent.has_parent():", "        parent = node.parent_node()\n\n        if not parent.is_page():\n            yield parent\n\n        while parent.has_parent():", ["C13", "C02", "C08"]),
+    ("paginate_pages_lookahead", "traph/traph.py", "                if k is not None and n >= k:\n                    return {\n                        \"done\": False,\n                        \"count\": n - 1,", "                if k is not None and n >= k and (n > 2 or not crawled):\n                    return {\n                        \"done\": False,\n                        \"count\": n - 1,", ["C09"]),
     ("revert_F2", "traph/helpers.py", "        yield True, string\n        return\n", "        yield True, string\n", ["C19", "C02"]),
     ("heap_bound_gt_to_ge", "traph/traph.py", "                    if len(pages) > pages_count:\n                        heapq.heappop(pages)", "                    if len(pages) >= pages_count and len(pages) > 1:\n                        heapq.heappop(pages)", ["C20"]),
     ("most_linked_weighted", "traph/traph.py", "                    for _ in self.link_store.weighted_link_nodes_iter(node.inlinks()):\n                        indegree += 1", "                    for _ in self.link_store.link_nodes_iter(node.inlinks()):\n                        indegree += 1", ["C20"]),
